@@ -180,6 +180,25 @@ func printFileBeforeAnother(f *dst.File, another bool) (string, error) {
 	return buf.String(), err
 }
 
+// printFileReusedFileRestorer prints f with a FileRestorer that has printed another (commented) file
+// before, or with a fresh one.
+func printFileReusedFileRestorer(f *dst.File, reused bool) (string, error) {
+	fr := decorator.NewRestorer().FileRestorer()
+	if reused {
+		other, err := decorator.Parse(otherFileSrc)
+		if err != nil {
+			panic(err)
+		}
+		var sink bytes.Buffer
+		if err := fr.Fprint(&sink, other); err != nil {
+			panic(err)
+		}
+	}
+	var buf bytes.Buffer
+	err := fr.Fprint(&buf, f)
+	return buf.String(), err
+}
+
 // printFileBoth prints f directly, late, and before another file is restored by the same Restorer;
 // differs is non-empty if the prints disagree.
 func printFileBoth(f *dst.File) (out string, err error, differs string) {
@@ -190,6 +209,13 @@ func printFileBoth(f *dst.File) (out string, err error, differs string) {
 		early, eerr := printFileBeforeAnother(f, true)
 		if (aerr == nil) != (eerr == nil) || early != alone {
 			return out, err, fmt.Sprintf("the print changes when the same Restorer restores another file before the first is printed (errors: %v / %v)\n%s", aerr, eerr, diffDesc(alone, early))
+		}
+	}
+	if err == nil {
+		fresh, ferr := printFileReusedFileRestorer(f, false)
+		reused, rerr := printFileReusedFileRestorer(f, true)
+		if (ferr == nil) != (rerr == nil) || fresh != reused {
+			return out, err, fmt.Sprintf("the print changes when the FileRestorer has printed another file before (errors: %v / %v)\n%s", ferr, rerr, diffDesc(fresh, reused))
 		}
 	}
 	late, lerr := printFileLate(f)
